@@ -738,7 +738,7 @@ pub fn run_all_logs(tier: Tier) -> MigOut {
     let n = menu.len();
     // a book with one new-format bid and the bid under test
     let cfg = Cfg::new(0, 1, ("0.25", "0.25"), "R0");
-    let sc = scen("all-logs", cfg, Menu { ask_slots: 0, bid_slots: 0, prices: vec!["2"], sizes: vec![1], match_sizes: vec![], reject_sizes: vec![], ask_bases: vec![], two_approvers: false, modifies: vec![] }, vec![]);
+    let sc = scen("all-logs", cfg, Menu { ask_slots: 0, bid_slots: 0, prices: vec!["2"], sizes: vec![1], match_sizes: vec![], reject_sizes: vec![], ask_bases: vec![], two_approvers: false, modifies: vec![], quotes: vec![] }, vec![]);
     let s0 = crate::engine::initial_store(&sc).expect("instantiate");
     let native_other = json!({"base": {"denom": "base", "amount": "10"}, "accumulated_base": "3", "accumulated_quote": "6", "accumulated_fee": "1", "fee": {"denom": "q1", "amount": "5"},
         "id": crate::scenario::ID_B2, "owner": "buyer2", "price": "2", "quote": {"denom": "q1", "amount": "20"}});
